@@ -462,6 +462,13 @@ def r01_2(ctx: Ctx):
                         xr = d[xr.id][0]
                     okx = xr is not None and norm(xr).endswith("_sprout_seed.genome")
                     obs.append(ctx.ob("R01.2", f, cs.node, status=OK if okx else VIOLATION, detail=f"{ci.name}: the local search starts at the sprout seed" if okx else f"{ci.name}: the local search starts at `{norm(xr) if xr is not None else '?'}`, not at the (box-closed) sprout seed", construct=f"{ci.name}:scipy-x0"))
+    # external helpers that evaluate a callable of ours at points of their own choosing, without bounds (table, DESIGN §9)
+    UNBOUNDED_PROBES = ("scipy.optimize.approx_fprime", "scipy.optimize.check_grad", "scipy.misc.derivative", "scipy.optimize.line_search", "scipy.optimize.fmin", "scipy.optimize.fmin_bfgs", "scipy.optimize.fmin_cg", "scipy.optimize.fmin_powell")
+    for ci in ctx.concrete_demes():
+        for f in ctx.prog.functions_in(ci):
+            for cs in ctx.res.callsites(f):
+                if cs.external in UNBOUNDED_PROBES and isinstance(cs.node, ast.Call):
+                    obs.append(ctx.ob("R01.2", f, cs.node, status=VIOLATION, detail=f"{ci.name}: `{norm(cs.node)[:60]}` ({cs.external}) evaluates the objective at points it chooses itself (e.g. x + step) without any bounds: probes next to an upper face leave the box", construct=f"{ci.name}:{cs.external}"))
     if cma_inits == 0:
         raise AnalysisError("no deme constructing a CMA-ES strategy found")
     return obs
@@ -548,13 +555,18 @@ def _genome_source_ok(ctx, ci, f, g, sn, defs):
                 ok, why = _affine_ok(ctx, ci, f, src, sn, defs)
                 return ok, why
     # copies of arrays handed over by scipy (bounds passed to scipy are checked separately)
+    # cma's distribution mean lives in genotype space, before the boundary transform: not box-closed (table, DESIGN §9)
+    inner = r.args[0] if isinstance(r, ast.Call) and norm(r.func) in ("np.copy", "np.array", "np.asarray") and r.args else r
+    if isinstance(inner, ast.Attribute) and inner.attr in ("mean", "xmean") and isinstance(inner.value, ast.Attribute) and "cma" in inner.value.attr.lower():
+        return False, f"!genome `{t[:60]}` is CMA-ES's distribution mean, which is kept in genotype space and can lie outside the box (only ask() / result.xfavorite are repaired)"
+    own_params = [p_ for p_ in f.params() if p_ != sn]
     if isinstance(r, ast.Call) and norm(r.func) in ("np.copy", "np.array") and r.args:
         root = r.args[0]
         while isinstance(root, (ast.Attribute, ast.Subscript)):
             root = root.value
-        if isinstance(root, ast.Name) and root.id in f.params():
+        if isinstance(root, ast.Name) and root.id in own_params:
             return True, "scipy's iterate (bounded run)"
-    if isinstance(r, ast.Attribute) and isinstance(r.value, ast.Name) and r.value.id in f.params() and r.attr == "x":
+    if isinstance(r, ast.Attribute) and isinstance(r.value, ast.Name) and r.value.id in own_params and r.attr == "x":
         return True, "scipy's iterate (bounded run)"
     return False, f"genome `{t[:60]}` has no recognised box-respecting source"
 
@@ -1034,6 +1046,67 @@ def r01_7(ctx: Ctx):
     return obs
 
 
+def r01_8(ctx: Ctx):
+    """R01.8 a zero-initialised genome buffer is written on every path of every iteration of the loop that fills it (the all-zero row is outside a box that does not contain the origin)."""
+    from ..cfg import typestate, witness_path
+
+    obs = []
+    n = 0
+    for f in ctx.prog.all_functions():
+        if f.name == "<module>" or not f.module.name.startswith("pyhms.demes"):
+            continue
+        bufs = {}
+        for st in body_walk(f.node):
+            if isinstance(st, ast.Assign) and len(st.targets) == 1 and isinstance(st.targets[0], ast.Name) and isinstance(st.value, ast.Call) and norm(st.value.func).split(".")[-1] in ("zeros_like", "zeros", "empty", "empty_like"):
+                bufs[st.targets[0].id] = st
+        if not bufs:
+            continue
+        cfg = ctx.cfg(f)
+        for b, bst in bufs.items():
+            def stores(node):
+                if node.kind != "stmt" or not isinstance(node.ast, (ast.Assign, ast.AugAssign)):
+                    return False
+                tg = node.ast.targets if isinstance(node.ast, ast.Assign) else [node.ast.target]
+                return any(isinstance(t, ast.Subscript) and isinstance(t.value, ast.Name) and t.value.id == b for t in tg)
+
+            loops = [L for L in cfg.loop_info if isinstance(L["stmt"], (ast.For, ast.While)) and any(stores(x) for x in cfg.nodes if cfg.loop_of(x) is L)] if hasattr(cfg, "loop_info") else []
+            if not loops:
+                # filled without a loop (slice stores / vectorised): not this rule's subject
+                continue
+            for L in loops:
+                n += 1
+                head = L["head"]
+                viol = []
+
+                def node_fn(x, s, head=head):
+                    if x is head:
+                        if s is False:
+                            viol.append((x, s))
+                        return ["HEAD"]
+                    if s == "OUT":
+                        return [s]
+                    if stores(x):
+                        return [True]
+                    return [s]
+
+                def edge_fn(x, lab, s, head=head):
+                    if x is head:
+                        return False if lab in ("iter", True) else "OUT"
+                    return s
+
+                at, exits, parent = typestate(cfg, ["OUT"], node_fn, edge_fn)
+                # leaving the loop through `break` without having written this iteration's rows
+                brk = [x for x in cfg.nodes if cfg.loop_of(x) is L and x.kind == "stmt" and isinstance(x.ast, ast.Break) and False in at.get(x.id, set())]
+                if viol or brk:
+                    w = viol[0] if viol else (brk[0], False)
+                    obs.append(ctx.ob("R01.8", f, L["stmt"], status=VIOLATION, detail=f"{f.short}: on some path an iteration of the loop filling `{b}` (created by `{norm(bst.value)[:40]}`) writes nothing: those rows keep the initial zeros, and the all-zero genome is evaluated although it lies outside every box that does not contain the origin", witness=witness_path(cfg, parent, w[0].id, w[1]), construct=f"{f.short}:{b}"))
+                else:
+                    obs.append(ctx.ob("R01.8", f, L["stmt"], detail=f"{f.short}: every iteration writes its rows of `{b}`", construct=f"{f.short}:{b}"))
+    if n == 0:
+        obs.append(ctx.ob("R01.8", None, None, subject="pyhms.demes", loc="-", detail="no loop-filled zero-initialised buffer", construct="none", trivial=True))
+    return obs
+
+
 RULES = [
     ("R01.1", r01_1, 10),
     ("R01.2", r01_2, 14),
@@ -1042,4 +1115,5 @@ RULES = [
     ("R01.5", r01_5, 5),
     ("R01.6", r01_6, 1),
     ("R01.7", r01_7, 3),
+    ("R01.8", r01_8, 1),
 ]
